@@ -70,7 +70,10 @@ def cmpVal (op : CmpOp) (a b : Val) : Bool :=
   | .atom (.str x), .atom (.str y) => cmpStr op x y
   | .atom (.int x), .atom (.int y) => cmpInt op x y
   | .atom (.bool x), .atom (.bool y) =>
-    (match op with | .eq => x == y | .ne => x != y | _ => false)
+    -- rhai orders booleans (false < true)
+    (match op with
+     | .eq => x == y | .ne => x != y
+     | .lt => !x && y | .le => !x || y | .gt => x && !y | .ge => x || !y)
   | .atom .unit, .atom .unit => (match op with | .eq => true | .ne => false | _ => false)
   | _, _ => (match op with | .ne => true | _ => false)
 
